@@ -44,9 +44,19 @@ def inits_code(text):
     return ','.join(out)
 
 
+RE_IFLET = re.compile(r'^if\s?let\s?(' + P + r'AroundOutcome::Abort\(\w+\))=(\w+\.\w+\(' + P + r'AroundStage::\w+\)(?:\.await)?)\{(.*)\}$', re.S)
+
+
 def canon_locals(stmts):
-    """names of generated locals carry no meaning: rename them to the ones the templates use"""
-    out = list(stmts)
+    """names of generated locals carry no meaning: rename them to the ones the templates use; an `if let Abort(e) = call
+    { body }` is the two-armed `match call { Proceed => {}, Abort(e) => { body } }` (the enum has two variants)"""
+    out = []
+    for st in stmts:
+        m = RE_IFLET.match(st)
+        if m:
+            st = 'match %s{%sAroundOutcome::Proceed=>{},%s=>{%s}}' % (m.group(2), P.replace('\\', ''), m.group(1), m.group(3))
+        out.append(st)
+    stmts = out
     ren = {}
     for st in stmts:
         m = re.match(r'^let mut (\w+)=\w+\{ctx:self\.ctx,', st)
